@@ -1,5 +1,7 @@
 pub mod c01;
 pub mod c10;
+pub mod c11;
+pub mod c12;
 
 use crate::engine::Engine;
 
@@ -7,6 +9,8 @@ pub fn dispatch(id: &str) -> Option<fn(&mut Engine)> {
     match id {
         "C01" => Some(c01::run),
         "C10" => Some(c10::run),
+        "C11" => Some(c11::run),
+        "C12" => Some(c12::run),
         _ => None,
     }
 }
